@@ -90,7 +90,15 @@ class C01(Check):
                                reqs.signed_script(rng, 2, (True, True), redeem)], nout=1)
         dup = B.minimal_push(redeem) + B.minimal_push(rng.nz_bytes(70)) + B.minimal_push(redeem)
         tx4 = reqs.mk_tx(rng, [dup, b"\x52\x53\x52"], nout=1)
-        self.txs = [tx1, tx2, tx3, tx4]
+        # the same spending transaction in BIP144 wire format (marker, flag, one witness stack per
+        # input): the witness section is part of "the client's transaction" and is relayed untouched
+        t5 = B.parse_tx(tx2)
+        t5["witness"] = [[rng.nz_bytes(72), redeem], [b"", rng.nz_bytes(33)]]
+        tx5 = B.serialize_tx(t5)
+        t6 = B.parse_tx(tx1)
+        t6["witness"] = [[b"\x01"]]
+        tx6 = B.serialize_tx(t6)
+        self.txs = [tx1, tx2, tx3, tx4, tx5, tx6]
         receipt = reqs.mk_receipt(rng, 90)
         proof = [rng.nz_bytes(33), rng.nz_bytes(7)]
         ws = rng.nz_bytes(71)
@@ -127,6 +135,19 @@ class C01(Check):
                 proof=[n.hex() for n in proof], ws=ws.hex(), value=val)
         add("auth", path=0, mode="legacy", tx=0, index=0, receipt=receipt.hex().upper(),
             proof=[n.hex().upper() for n in proof], ws=ws.hex(), value=7, upper=True)
+        for mode, txi in (("legacy", 4), ("segwit", 4), ("segwit", 5)):
+            add("auth", path=0, mode=mode, tx=txi, index=1 if txi == 4 else 0, receipt=receipt.hex(),
+                proof=[n.hex() for n in proof], ws=ws.hex(), value=9)
+        # other spellings of the same bytes that the validators accept (blanks between the bytes,
+        # as bytes.fromhex skips them): the text is longer than twice the byte count
+        for mode, txi, rl, pr, wl in (("legacy", 1, 90, [33, 7], 71), ("segwit", 0, 255, [200, 255, 171], 252),
+                                      ("legacy", 2, 300, [255] * 3, 71)):
+            r = reqs.mk_receipt(rng, rl)
+            add("auth", big=True, path=0, mode=mode, tx=txi, index=0, receipt=r.hex(" "),
+                proof=[rng.nz_bytes(n).hex(" ") for n in pr], ws=rng.nz_bytes(wl).hex(" "), value=7,
+                spell="blanks")
+        add("hash", path=2, hash=rng.bytes(32).hex(" "), v1=False, spell="blanks")
+        add("hash", path=2, hash=rng.bytes(32).hex(" "), v1=True, spell="blanks")
         return shapes
 
     def cases(self):
@@ -151,7 +172,7 @@ class C01(Check):
             req = reqs.sign_request(path, hash_hex=s["hash"], version=1 if s.get("v1") else 5)
             return req, {"first": pb + h, "auth": False, "v1": bool(s.get("v1"))}
         tx = self.txs[s["tx"]]
-        txhex = tx.hex().upper() if s.get("upper") else tx.hex()
+        txhex = tx.hex().upper() if s.get("upper") else (tx.hex(" ") if s.get("spell") == "blanks" else tx.hex())
         req = reqs.sign_request(path, txhex, s["index"], s["mode"], s["receipt"], s["proof"],
                                 witness_script=s["ws"], outpoint_value=s["value"])
         canon, _ok = B.blank_tx(tx)
@@ -195,6 +216,11 @@ class C01(Check):
         if w.livelock:
             viol("livelock", {"exchanges": w.seq}, "termination")
             return
+        if s.get("spell") and dev.first is None and code != 0 and code in (V1_CODES if exp["v1"] else DOC_SIGN_CODES):
+            # a manager that refuses the unusual spelling outright (no device contact) is as good as
+            # one that reads it: the statement speaks of well-formed requests
+            stats.dont_care += 1
+            return
         if dev.errors:
             viol("protocol", {"errors": dev.errors}, "no APDU outside the dialogue")
         if dev.first != exp["first"]:
@@ -215,6 +241,11 @@ class C01(Check):
                     off += len(chunk)
                 if len(got) != len(want):
                     consumed_all = False
+            if dev.finished is None and dev.phase is not None and not dev.errors and dev.early is None:
+                ph = dev.PHASES[dev.phase][0]
+                if len(dev.recv[ph]) < len(exp[ph]):
+                    viol("abandoned-" + ph, {"received": len(dev.recv[ph]), "errorcode": code},
+                         {"all_bytes": len(exp[ph]), "why": "the device kept asking within the data"})
         fin = dev.finished
         ok_expected = consumed_all and fin is not None and fin[0] == "good"
         allowed = V1_CODES if exp["v1"] else DOC_SIGN_CODES
